@@ -98,7 +98,8 @@ const header = `From Coq Require Import String List ZArith NArith Bool.
 Require Import Verif.Base.Harness Verif.Front.Ast Verif.Front.Denote Verif.Front.RunC02.
 Import ListNotations.
 Local Open Scope string_scope. Local Open Scope Z_scope.`
-const footer = `Definition M := Eval vm_compute in mismatches ok cases. Print M.`
+const footer = `Definition M := Eval vm_compute in mismatches ok cases. Print M.
+Definition CF := Eval vm_compute in cover cases. Print CF.`
 
 func hist(ctx *common.Ctx, s *gen.Spec) (nontrivial bool, key string) {
 	nb, nm, ns := 0, 0, 0
@@ -165,6 +166,26 @@ func hist(ctx *common.Ctx, s *gen.Spec) (nontrivial bool, key string) {
 			for _, it := range m.Items {
 				if it.Field != nil {
 					fld(*it.Field)
+				}
+				if it.Tuple != nil {
+					var tup func(t *gen.InTuple, d int)
+					tup = func(t *gen.InTuple, d int) {
+						ctx.Hist(fmt.Sprintf("inplace:depth%d", d))
+						if t.Array {
+							ctx.Hist("inplace:array")
+						}
+						if m.Kind == gen.MTable {
+							ctx.Hist("inplace:in-table")
+						}
+						for _, n := range t.Fields {
+							if n.Field != nil {
+								fld(*n.Field)
+							} else {
+								tup(n.Tuple, d+1)
+							}
+						}
+					}
+					tup(it.Tuple, 1)
 				}
 			}
 			for _, e := range m.Enum {
@@ -269,12 +290,12 @@ func main() {
 		ctx.Finish()
 		return
 	}
-	nFull, nStaged, nColl, nTriples, nOrderRounds, perFile := 150, 70, 40, 8, 1, 15
+	nFull, nStaged, nColl, nTriples, nOrderRounds, nPrec, nFiles, perFile := 150, 70, 40, 8, 1, 30, 20, 15
 	if ctx.Thorough() {
-		nFull, nStaged, nColl, nTriples, nOrderRounds, perFile = 3000, 900, 400, 200, 10, 100
+		nFull, nStaged, nColl, nTriples, nOrderRounds, nPrec, nFiles, perFile = 3000, 900, 400, 200, 10, 300, 300, 100
 	}
 	if ctx.Search {
-		nFull, nStaged, nColl, nTriples = nFull*3, nStaged*2, nColl*3, nTriples*3
+		nFull, nStaged, nColl, nTriples, nPrec, nFiles = nFull*3, nStaged*2, nColl*3, nTriples*3, nPrec*3, nFiles*3
 	}
 	cs := ctx.NewCases("c02", header, "spec * option module", footer, perFile)
 	// stream 1: the shapes Appendix B requires, hand-built, canonical and randomised layout
@@ -286,7 +307,7 @@ func main() {
 	for i := 0; i < nStaged; i++ {
 		seed := ctx.Rng.Uint64()
 		k := gen.DefaultKnobs()
-		k.Level = 1 + i%8
+		k.Level = 1 + i%9
 		k.MaxApps, k.MaxFields = 3, 4
 		addCase(fmt.Sprintf("staged%d", k.Level), seed, gen.Generate(common.NewRng(seed), k), i%5 == 0)
 	}
@@ -311,6 +332,21 @@ func main() {
 		sp, _ := gen.GenerateOrderTriples(common.NewRng(seed), 6)
 		addCase("order3", seed, sp, false)
 	}
+	// stream 2d: attribute precedence - one attribute name given inline and again by annotations on one element
+	// (application, type, table, field, enum, alias, union, simple endpoint, REST method), every value kind in every order
+	for i := 0; i < nPrec; i++ {
+		seed := ctx.Rng.Uint64()
+		addCase("prec", seed, gen.GeneratePrec(common.NewRng(seed)), i%5 == 0)
+	}
+	// stream 2e: multi-file specifications - the blocks of a generated specification cut into 2-4 files reached through
+	// import statements (chain / star / mixed, with redundant and cyclic imports); applications continue across files
+	for i := 0; i < nFiles; i++ {
+		seed := ctx.Rng.Uint64()
+		r := common.NewRng(seed)
+		sp := gen.SplitFiles(gen.Generate(r, gen.DefaultKnobs()), r)
+		ctx.Hist(fmt.Sprintf("files:%d", len(sp.Files)))
+		addCase("files", seed, sp, false)
+	}
 	// stream 3: everything in scope
 	for i := 0; i < nFull; i++ {
 		seed := ctx.Rng.Uint64()
@@ -326,8 +362,8 @@ func main() {
 		finishCase(ctx, cs, j)
 	}
 	cs.Close()
-	ctx.Res.Rule = "abstract specifications (apps incl. namespaced/escaped names, types/tables with every primitive x size/array spec x set/sequence x local/cross-app reference x optional, enums, aliases, unions, simple and REST endpoints with params/query/path variables, full statement language nested to depth 5, mixins, events, subscriptions, collector blocks (`.. * <- *:` with call / endpoint / VERB-path entries over statement trees planted with repeated calls), every ordered pair of member kinds directly after one another inside one application, every attribute form) rendered with random legal surface choices; non-trivial = at least two members or two statements; distinct by (stream, case seed, size signature)"
-	b, _ := json.Marshal(map[string]int{"full": nFull, "staged": nStaged, "collector": nColl, "order": gen.NOrderKinds * nOrderRounds, "order3": nTriples})
+	ctx.Res.Rule = "abstract specifications (apps incl. namespaced/escaped names, types/tables with every primitive x size/array spec x set/sequence x local/cross-app reference x optional, enums, aliases, unions, simple and REST endpoints with params/query/path variables, full statement language nested to depth 5, mixins, events, subscriptions, collector blocks (`.. * <- *:` with call / endpoint / VERB-path entries over statement trees planted with repeated calls), every ordered pair of member kinds directly after one another inside one application, one attribute name declared inline and again by annotations on one element with every value kind in every order, in-place tuples (`field <:` + indented fields, nested to depth 3, array form, in !type and !table, names that need escaping), multi-file specifications (2-4 files joined by import statements, applications continued across files), every attribute form) rendered with random legal surface choices; non-trivial = at least two members or two statements; distinct by (stream, case seed, size signature)"
+	b, _ := json.Marshal(map[string]int{"full": nFull, "staged": nStaged, "collector": nColl, "order": gen.NOrderKinds * nOrderRounds, "order3": nTriples, "prec": nPrec, "files": nFiles})
 	ctx.Res.Extra["streams"] = json.RawMessage(b)
 	ctx.Res.Extra["compile_wall_ms"] = time.Since(t0).Milliseconds()
 	ctx.Finish()
